@@ -257,6 +257,24 @@ def input_queue_model(rep):
     rep.extra["input_queue_model"] = out
 
 
+def input_queue_unbounded(rep):
+    """Apalache (symbolic): for ANY chunk size and ANY burst size the level-triggered source never gets stuck - IndInv holds
+    initially, is preserved by every step, and implies NeverStuck (three bounded checks of length 0 / 1 / 0)"""
+    work = os.path.join(core.BUILD, "work", "apalache-inputqueue")
+    subprocess.run(["rm", "-rf", work])
+    os.makedirs(work)
+    subprocess.run(["cp", os.path.join(core.SPEC, "InputQueue.tla"), work])
+    runs = (("--init=Init", "--inv=IndInv", "--length=0"), ("--init=IndInit", "--inv=IndInv", "--length=1"), ("--init=IndInit", "--inv=NeverStuck", "--length=0"))
+    for r in runs:
+        p = subprocess.run(["timeout", "900", "apalache-mc", "check", "--cinit=CInitLevel"] + list(r) + ["InputQueue.tla"], cwd=work,
+                           stdout=subprocess.PIPE, stderr=subprocess.STDOUT, text=True)
+        if "The outcome is: NoError" not in p.stdout:
+            subprocess.run(["rm", "-rf", work])
+            raise core.ToolError("apalache-mc did not confirm " + " ".join(r) + ": " + p.stdout[-500:])
+    subprocess.run(["rm", "-rf", work])
+    rep.extra["input_queue_apalache"] = "IndInv inductive and implies NeverStuck for every Chunk > 0, Burst > 0 (level-triggered source)"
+
+
 def lifecycle_model(prop, tier, rep):
     """Step D for the client's life (RadarSession): safety and, under weak fairness of the program's own steps, liveness"""
     for r in ("0", "1"):
@@ -440,6 +458,8 @@ def run(prop, tier, seed, rep):
     # goes away is not a session Trace_UI knows)
     lifecycle_model(prop, tier, rep)
     input_queue_model(rep)
+    if tier == "thorough":
+        input_queue_unbounded(rep)
     lj = life_jobs(rng, tier)
     with cf.ThreadPoolExecutor(max_workers=6) as ex:
         life = list(ex.map(lambda j: life_session(bindir, random.Random(j["seed"]), j["tag"], j["retry"], j["nconn"], j["last"], j["quit_key"]), lj))
